@@ -654,6 +654,8 @@ Proof.
   - (* Observe *) unfold coh0. cbn. repeat split; auto; apply Ht.
   - (* Restart *) apply (coh_restart {| db := d; mem := m; budgets := bs; gone := g |}); assumption.
   - (* Failed *) unfold coh0. cbn. repeat split; auto; apply Ht.
+  - (* Credit4 *) unfold coh0. cbn. repeat split; auto; apply Ht.
+  - (* Debit4 *) destruct (bal_of (d_bal d) a <? amt)%N; unfold coh0; cbn; repeat split; auto; apply Ht.
 Qed.
 
 (* the files that open are those that opened at the last start: kept by every step that
